@@ -573,6 +573,8 @@ class PacketBuilder:
         """-> field bits for parameter `name` (may raise ref.ModelError if the length cannot be computed)"""
         r = self.rng
         e = t.enc
+        if name == "PKT_LEN" and getattr(self, "forced_pktlen", None) is not None and isinstance(e, ir.IntEnc) and e.bits == 16:
+            return bits.to_bits(self.forced_pktlen & 0xFFFF, 16)
         if isinstance(e, ir.IntEnc):
             n = e.bits
             lo, hi = (0, (1 << n) - 1) if e.encoding == "unsigned" else (-(1 << (n - 1)), (1 << (n - 1)) - 1)
@@ -633,7 +635,28 @@ class PacketBuilder:
         return string_bits(r, e, L)
 
     def build(self, target=None, tries=12, length_delta=0):
-        """-> (raw packet bytes, meta) ; target: container name to steer towards (best effort)"""
+        """-> (raw packet bytes, meta). When the document references PKT_LEN (criteria, lengths), the packet is rebuilt with
+        the same random choices and PKT_LEN forced to the actual length until that is a fixed point (so that such
+        packets are usually well-formed AND consistent); otherwise PKT_LEN is simply patched afterwards."""
+        self.forced_pktlen = None
+        if not self.pktlen_referenced or length_delta != 0:
+            return self._build(target, tries, length_delta)
+        state = self.rng.getstate()
+        raw, meta = self._build(target, tries, 0, patch_len=True)
+        for _ in range(3):
+            after = self.rng.getstate()
+            self.rng.setstate(state)
+            self.forced_pktlen = len(raw) - 7
+            raw2, meta2 = self._build(target, tries, 0, patch_len=True)
+            if len(raw2) == len(raw):
+                self.forced_pktlen = None
+                return raw2, meta2
+            raw = raw2
+        self.forced_pktlen = None
+        self.rng.setstate(state)
+        return self._build(target, tries, 0)
+
+    def _build(self, target=None, tries=12, length_delta=0, patch_len=False):
         r = self.rng
         allbits = ""
         env = {}
@@ -710,7 +733,7 @@ class PacketBuilder:
             keep = max(1, nbytes_body + length_delta)
             allbits = allbits[:48 + 8 * keep]
         nbytes_body = (len(allbits) - 48) // 8
-        if self.pktlen_referenced and length_delta == 0:
+        if self.pktlen_referenced and length_delta == 0 and not patch_len:
             # PKT_LEN was (possibly) used while steering: keep its value and force the total length to match it
             declared = bits.u(allbits[32:48]) + 1
             if declared > 4096:
